@@ -3,6 +3,7 @@ package main
 import (
 	"fmt"
 	"go/ast"
+	"go/constant"
 	"go/token"
 	"go/types"
 	"sort"
@@ -616,9 +617,14 @@ func ruleWKTTable(r *Run) {
 		}
 		return true
 	})
+	// … or a package-level table keyed by the same labels that parseParam (or a function it calls) consults
+	var tableEntries map[string]ast.Node
 	if inner == nil {
-		r.missing("parseParam's well-known-type switch")
-		return
+		tableEntries = p.wktTable(fd)
+		if tableEntries == nil {
+			r.missing("parseParam's well-known-type switch (or a table keyed by the type names that parseParam consults)")
+			return
+		}
 	}
 	want := map[string]bool{}
 	for _, l := range wktLabels {
@@ -643,13 +649,30 @@ func ruleWKTTable(r *Run) {
 	} else {
 		r.undecided("wrapperspb", fd.Pos(), "package wrapperspb not loaded")
 	}
-	have := map[string]*ast.CaseClause{}
-	for _, c := range inner.Body.List {
-		cc := c.(*ast.CaseClause)
-		for _, e := range cc.List {
-			if v := constOf(p.Lark, e); v != nil {
-				have[strings.Trim(v.ExactString(), `"`)] = cc
+	// label -> the syntax that handles it (a case clause, or the value of a table entry)
+	have := map[string][]ast.Node{}
+	var where token.Pos = fd.Pos()
+	if inner != nil {
+		where = inner.Pos()
+		for _, c := range inner.Body.List {
+			cc := c.(*ast.CaseClause)
+			for _, e := range cc.List {
+				if v := constOf(p.Lark, e); v != nil {
+					var body []ast.Node
+					for _, st := range cc.Body {
+						body = append(body, st)
+					}
+					if len(body) == 0 {
+						body = []ast.Node{cc}
+					}
+					have[strings.Trim(v.ExactString(), `"`)] = body
+				}
 			}
+		}
+	} else {
+		for l, n := range tableEntries {
+			have[l] = []ast.Node{n}
+			where = n.Pos()
 		}
 	}
 	var labels []string
@@ -659,38 +682,97 @@ func ruleWKTTable(r *Run) {
 	sort.Strings(labels)
 	for _, l := range labels {
 		key := "parseParam/wkt:" + l
-		cc := have[l]
-		if cc == nil {
-			r.bad(key, inner.Pos(), "google.protobuf.%s has no case: fields of this well-known type cannot be bound from path or query", l)
+		nodes := have[l]
+		if nodes == nil {
+			r.bad(key, where, "google.protobuf.%s has no case: fields of this well-known type cannot be bound from path or query", l)
 			continue
 		}
-		// the message declared under the label has type named l
+		// the message built or declared under the label has the type named l
 		good := false
 		var gotT string
-		for _, st := range cc.Body {
+		for _, st := range nodes {
 			ast.Inspect(st, func(n ast.Node) bool {
-				vs, ok := n.(*ast.ValueSpec)
-				if !ok || vs.Type == nil {
+				var t types.Type
+				switch x := n.(type) {
+				case *ast.ValueSpec:
+					if x.Type != nil {
+						t = info.TypeOf(x.Type)
+					}
+				case *ast.CallExpr: // new(T)
+					if id, ok := x.Fun.(*ast.Ident); ok && id.Name == "new" && len(x.Args) == 1 {
+						t = info.TypeOf(x.Args[0])
+					}
+				case *ast.CompositeLit: // &T{} / T{}
+					t = info.TypeOf(x)
+				}
+				if t == nil {
 					return true
 				}
-				if t := info.TypeOf(vs.Type); t != nil {
-					if nm := namedOf(t); nm != nil {
-						gotT = nm.Obj().Name()
-						if nm.Obj().Name() == l {
-							good = true
-						}
+				if nm := namedOf(t); nm != nil && nm.Obj().Pkg() != nil && strings.HasPrefix(nm.Obj().Pkg().Path(), "google.golang.org/protobuf/types/known/") {
+					gotT = nm.Obj().Name()
+					if nm.Obj().Name() == l {
+						good = true
 					}
 				}
 				return true
 			})
 		}
-		r.check(good, key, cc.Pos(), "unmarshals into "+l, fmt.Sprintf("under label %q the text is unmarshalled into %s: a %s field would be set with a message of another type (Set panics)", l, gotT, l))
+		r.check(good, key, nodes[0].Pos(), "unmarshals into "+l, fmt.Sprintf("under label %q the text is unmarshalled into %s: a %s field would be set with a message of another type (Set panics)", l, gotT, l))
 	}
-	for l, cc := range have {
+	for l, nodes := range have {
 		if !want[l] {
-			r.info("parseParam/wkt:"+l, cc.Pos(), "extra label not in the well-known-type table")
+			r.info("parseParam/wkt:"+l, nodes[0].Pos(), "extra label not in the well-known-type table")
 		}
 	}
+}
+
+// wktTable: a package-level composite literal keyed by string constants that include "Timestamp", whose variable is
+// referenced from parseParam or a package function it calls; label -> value expression of the entry.
+func (p *Program) wktTable(fd *ast.FuncDecl) map[string]ast.Node {
+	info := p.Lark.TypesInfo
+	used := map[types.Object]bool{}
+	p.inspectDeep(fd.Body, func(n ast.Node) bool {
+		if id, ok := n.(*ast.Ident); ok {
+			if v, ok := info.Uses[id].(*types.Var); ok && v.Parent() == p.Lark.Types.Scope() {
+				used[v] = true
+			}
+		}
+		return true
+	})
+	for _, file := range p.Lark.Syntax {
+		for _, d := range file.Decls {
+			gd, ok := d.(*ast.GenDecl)
+			if !ok || gd.Tok != token.VAR {
+				continue
+			}
+			for _, sp := range gd.Specs {
+				vs := sp.(*ast.ValueSpec)
+				for i, name := range vs.Names {
+					if !used[info.Defs[name]] || i >= len(vs.Values) {
+						continue
+					}
+					cl, ok := vs.Values[i].(*ast.CompositeLit)
+					if !ok {
+						continue
+					}
+					entries := map[string]ast.Node{}
+					for _, el := range cl.Elts {
+						kv, ok := el.(*ast.KeyValueExpr)
+						if !ok {
+							continue
+						}
+						if v := constOf(p.Lark, kv.Key); v != nil && v.Kind() == constant.String {
+							entries[constant.StringVal(v)] = kv.Value
+						}
+					}
+					if _, ok := entries["Timestamp"]; ok {
+						return entries
+					}
+				}
+			}
+		}
+	}
+	return nil
 }
 
 // inspectDeep is ast.Inspect over n and, transitively (depth 3), over the bodies of the larking-package
